@@ -80,6 +80,10 @@ func c20Corpus() []corr.Case {
 		// folder names spelled with backslashes, also a trailing one
 		mk("case", "mkdir "+hx(bucketName+"\\logs\\"), "bucket", "stat "+fsn("logs"), "create "+fsn("logs/a"), "close 0", "remove "+fsn("logs/a"), "bucket",
 			"removeall "+hx(bucketName+"\\logs"), "bucket", "stat "+fsn("logs"), "mkdirall "+hx(bucketName+"\\p\\q\\"), "bucket", "removeall "+fsn("p"), "bucket"),
+		// a read has opened the handle's stream; a shrinking Truncate follows; reads that continue at the old position
+		// see the truncated object (positional and sequential, at and behind the new end)
+		mk("case "+hx("f")+"=30313233343536373839", "openfile "+fsn("f")+" 2", "read 0 4", "trunc 0 6", "readat 0 8 4", "seek 0 4 0", "read 0 8", "close 0", "bucket",
+			"openfile "+fsn("f")+" 2", "read 1 1", "trunc 1 1", "readat 1 8 1", "readat 1 8 0", "hstat 1", "close 1", "bucket"),
 		// io.Copy into a handle positioned inside an existing object: the bytes behind the copied range survive
 		mk("case "+hx("f")+"=30313233343536373839", "openfile "+fsn("f")+" 2", "seek 0 2 0", "readfrom 0 616263", "close 0", "bucket", "stat "+fsn("f"), "open "+fsn("f"), "read 1 32",
 			"create "+fsn("g"), "readfrom 2 6768", "readfrom 2 69", "close 2", "bucket"),
